@@ -112,7 +112,7 @@ func dump(v reflect.Value, depth int) *gen.Node {
 	case reflect.Int, reflect.Int8, reflect.Int16, reflect.Int32, reflect.Int64:
 		return gen.Int(v.Int())
 	case reflect.Uint, reflect.Uint8, reflect.Uint16, reflect.Uint32, reflect.Uint64:
-		return gen.Float(float64(v.Uint()))
+		return gen.Uint(v.Uint())
 	case reflect.Float32, reflect.Float64:
 		return gen.Float(v.Float())
 	}
